@@ -1,21 +1,22 @@
 SPECIFICATION Spec
 CONSTANTS
-  Tree = {0, 1, 2, 9}
-  Relays = {1}
-  NoMc = {2}
+  Tree = {0, 1, 9}
+  Relays = {}
+  NoMc = {}
   Types = {1, 65}
-  Lens = {1}
+  Lens = {1, 3}
   FragLen = 1
   MaxWrites = 2
-  MaxLoss = 1
+  MaxLoss = 0
   Concurrent = FALSE
-  Redeliver = TRUE
-  FreeTimeout = TRUE
-INVARIANT C05_AtMostOnce
+  Redeliver = FALSE
+  FreeTimeout = FALSE
 INVARIANT C13_WaitOnlyIfNeeded
 INVARIANT C13_TrueOnlyIfArrived
 INVARIANT C13_AckOnce
 INVARIANT C13_AckOnlyIfOwed
+INVARIANT C05_AtMostOnce
 INVARIANT C14_ExactlyLevel
+INVARIANT C05_Delivered
 PROPERTY NoEarlyFail
 CHECK_DEADLOCK FALSE
